@@ -35,6 +35,9 @@ func (s *exprAccumulatorContext) GetMatch(idx int) (ret string) {
 	// Index 1+, parse the string as if it's a range (Without heap alloc)
 	splitter := stringSplitter.Splitter{S: s.match, Delim: expressions.ArraySeparatorString}
 	for i := 0; i < idx; i++ {
+		if splitter.Done() { // past the last part: nothing more to find, however large idx is
+			return ""
+		}
 		ret = splitter.Next()
 	}
 	return
@@ -219,6 +222,9 @@ func (s *accumulatorGroupSortContext) GetMatch(idx int) (ret string) {
 		Delim: expressions.ArraySeparatorString,
 	}
 	for i := 0; i <= idx; i++ {
+		if splitter.Done() { // past the last part: nothing more to find, however large idx is
+			return ""
+		}
 		ret = splitter.Next()
 	}
 	return ret
